@@ -56,7 +56,7 @@ def set_auth(ike_sa, which, **kw):
     ike_sa.configuration = conf._replace(**{which: getattr(conf, which)._replace(**kw)})
 
 
-def h_verify(role, conf_kind):
+def h_verify(role, conf_kind, auth_len=None, shape='plain'):
     """role 'responder': B in INIT_RES_SENT gets IKE_AUTH request; 'initiator': A in AUTH_REQ_SENT gets the IKE_AUTH response"""
     from symx import core, shims
     eng = core.engine()
@@ -89,20 +89,29 @@ def h_verify(role, conf_kind):
     id_type = eng.sym_int('id_type', 0, 255)
     id_data = eng.sym_bytes('id_data', len(conf_id.id_data))
     method = eng.sym_int('method', 0, 255)
-    auth_len = 128 if conf_kind == 'rsa_only' else 32
+    if auth_len is None:
+        auth_len = 128 if conf_kind == 'rsa_only' else 32
     auth_data = eng.sym_bytes('auth_data', auth_len)
     idp = id_cls(1, id_data)
     idp.id_type = core.SymEnumVal(id_type.t) if not isinstance(id_type, int) else m.PayloadID.Type(id_type)
     authp = m.PayloadAUTH(1, auth_data)
     authp.method = core.SymEnumVal(method.t) if not isinstance(method, int) else m.PayloadAUTH.Method(method)
     enc = []
+    skind, _, ntype = shape.partition(':')
     for x in genuine.encrypted_payloads:
         if x.type in (m.Payload.Type.IDi, m.Payload.Type.IDr):
-            enc.append(idp)
+            if skind != 'bare':
+                enc.append(idp)
         elif x.type == m.Payload.Type.AUTH:
-            enc.append(authp)
+            if skind != 'bare':
+                enc.append(authp)
+        elif skind in ('refused', 'bare') and x.type in (m.Payload.Type.SA, m.Payload.Type.TSi, m.Payload.Type.TSr):
+            continue
         else:
             enc.append(x)
+    if ntype:
+        # the peer also sends a notification: a refusal of the CHILD_SA, a status or an error type
+        enc.insert(0, m.PayloadNOTIFY(m.Proposal.Protocol.NONE, m.PayloadNOTIFY.Type[ntype], b'', b''))
     msg = m.Message(spi_i=me.spi_i, spi_r=me.spi_r, major=2, minor=0, exchange_type=35, is_response=exch_resp, can_use_higher_version=False,
                     is_initiator=not me.is_initiator, message_id=1, payloads=[], encrypted_payloads=enc)
     msg.is_protected = True
@@ -111,7 +120,11 @@ def h_verify(role, conf_kind):
     installed = any(x['op'] == 'NEWSA' for x in E.kernel.log[klog0:])
     accepted = me.state == S.ESTABLISHED or installed or (role == 'initiator' and me.state == S.DEL_CHILD_REQ_SENT)
     P = eng.prove
+    if accepted and skind == 'bare':
+        return {'class': ['verify'], 'violation': f'{role} accepted an IKE_AUTH message that carries neither an identity nor an AUTH payload (only N({ntype}))'}
     if not accepted:
+        if skind != 'plain':
+            return ['verify', role, conf_kind, 'refused']
         # completeness on the PSK path: the genuine values must be accepted
         want, _ = spec_auth(psk, own_init_sent_by_peer, nonce_mine, idp.to_bytes(), me.peer_crypto.sk_p) if psk is not None else (None, None)
         if conf_kind != 'rsa_only' and want is not None:
@@ -222,6 +235,20 @@ def build_instances(tier):
         for ck in ('psk', 'rsa_only', 'both'):
             inst.append(Instance(f'verify {role} {ck}', h_verify, (role, ck), pin=('id_type', 'id_data', 'method'),
                                  must_reach=[('refused', lambda o: o[-1] == 'refused')] + ([('accepted', lambda o: o[-1] == 'accepted')] if ck != 'rsa_only' or True else [])))
+    # AUTH data of every other length (a prefix of the right value, the empty string, a longer string) must be refused
+    lens = (0, 1, 16, 31, 33) if tier == 'quick' else tuple(x for x in range(0, 49) if x != 32)
+    for role in ('responder', 'initiator'):
+        for n in lens:
+            inst.append(Instance(f'verify {role} psk auth_len={n}', h_verify, (role, 'psk', n), pin=('id_type', 'id_data', 'method')))
+        for n in ((0, 127, 129) if tier == 'quick' else (0, 1, 32, 64, 127, 129, 256)):
+            inst.append(Instance(f'verify {role} rsa_only auth_len={n}', h_verify, (role, 'rsa_only', n), pin=('id_type', 'id_data', 'method')))
+    # the IKE_AUTH message also carries a notification and/or lacks the CHILD_SA payloads or the ID/AUTH payloads altogether
+    for role in ('responder', 'initiator'):
+        for nt in ('TS_UNACCEPTABLE', 'NO_PROPOSAL_CHOSEN', 'INITIAL_CONTACT', 'AUTHENTICATION_FAILED', 'NO_ADDITIONAL_SAS', 'INVALID_SYNTAX'):
+            for sk in ('notify', 'refused', 'bare'):
+                if tier == 'quick' and nt in ('NO_ADDITIONAL_SAS', 'INVALID_SYNTAX'):
+                    continue
+                inst.append(Instance(f'verify {role} psk shape={sk}:{nt}', h_verify, (role, 'psk', None, f'{sk}:{nt}'), pin=('id_type', 'id_data', 'method')))
     for ak in ('psk', 'rsa'):
         inst.append(Instance(f'sign {ak}', h_sign, (ak,), engine_kw={'max_ticks': 10 ** 7}))
     inst.append(Instance('credential / identity mismatch', h_mismatch, (), engine_kw={'max_ticks': 10 ** 7},
